@@ -7,8 +7,10 @@ use serde_json::Value;
 use vcore::runner::*;
 
 mod c01;
+mod c02;
 mod c16;
 mod parsers;
+mod uri;
 
 pub struct CheckDef {
     pub id: &'static str,
@@ -20,11 +22,14 @@ pub struct CheckDef {
 fn checks() -> Vec<CheckDef> {
     vec![
         CheckDef { id: "C01", level: "exploration", run: c01::run_c01, replay: c01::replay_c01 },
+        CheckDef { id: "C02", level: "exploration", run: c02::run, replay: c02::replay },
         CheckDef { id: "C03", level: "exploration", run: c01::run_c03, replay: c01::replay_c03 },
         CheckDef { id: "C04", level: "exploration", run: parsers::run_c04, replay: parsers::replay_c04 },
         CheckDef { id: "C05", level: "exploration", run: parsers::run_c05, replay: parsers::replay_c05 },
         CheckDef { id: "C06", level: "exploration", run: parsers::run_c06, replay: parsers::replay_c06 },
         CheckDef { id: "C07", level: "fault_enumeration", run: parsers::run_c07, replay: parsers::replay_c07 },
+        CheckDef { id: "C13", level: "exploration", run: uri::run_c13, replay: uri::replay_c13 },
+        CheckDef { id: "C14", level: "exploration", run: uri::run_c14, replay: uri::replay_c14 },
         CheckDef { id: "C16", level: "exploration", run: c16::run, replay: c16::replay },
     ]
 }
@@ -32,6 +37,13 @@ fn checks() -> Vec<CheckDef> {
 fn main() {
     let args: Vec<String> = std::env::args().collect();
     install_silent_panic_hook();
+    if args.len() >= 3 && args[1] == "--child" {
+        let code = match args[2].as_str() {
+            "bomb" => c02::child_bomb(&args[3..]),
+            _ => 2,
+        };
+        std::process::exit(code);
+    }
     if args.len() < 3 {
         eprintln!("usage: chk <ID> quick|thorough | chk <ID> --replay <file>");
         std::process::exit(2);
